@@ -161,6 +161,12 @@ func (e *FieldExpression) Evaluate(ctx *Context, input system.Collection) (syste
 			fieldName = fieldName + "_value"
 			field = reflect.Descriptor().Fields().ByName(protoreflect.Name(fieldName))
 			if field == nil {
+				// Element names with acronyms (carrierHRF, requestURL, numTP) do not
+				// survive the snake_case conversion; the proto carries the FHIR name
+				// as its JSON name.
+				field = reflect.Descriptor().Fields().ByJSONName(e.FieldName)
+			}
+			if field == nil {
 				return nil, fmt.Errorf("%w: %s not a field on %T", ErrInvalidField, fieldName, message)
 			}
 		}
@@ -227,7 +233,10 @@ func (e *FieldExpression) isEvaluable(msg proto.Message) bool {
 
 	// Prevent snake_case fields, since all FHIRPath fields need to be in
 	// camelCase.
-	if strcase.ToLowerCamel(e.FieldName) != e.FieldName {
+	// (An element name with an acronym, e.g. carrierHRF, is not its own
+	// lowerCamel form; it is accepted when it is the JSON name of a field.)
+	if strcase.ToLowerCamel(e.FieldName) != e.FieldName &&
+		msg.ProtoReflect().Descriptor().Fields().ByJSONName(e.FieldName) == nil {
 		return false
 	}
 
